@@ -281,3 +281,15 @@ OBLIGATIONS.append(Ob("finecontour_getDistance", ob_getdistance, tier="quick", f
                       encodes=["hypnotoad.core.equilibrium:FineContour.getDistance", "hypnotoad.core.equilibrium:closest_approach"],
                       desc="for a point on the polyline the returned distance is the linear interpolation between the bracketing nodes",
                       bounds="3 collinear nodes, point anywhere between the end nodes", max_paths=3000, wall_s=600))
+
+
+
+def _xarrays_from_regions(env):
+    # resolved at call time: harness.c06 imports harness.c02, which imports this module's siblings (no import cycle at load time)
+    import harness.c06 as m
+    return m.ob_xarrays_from_regions(env)
+
+
+OBLIGATIONS.append(Ob("total_poloidal_distance_collected_from_y_groups", _xarrays_from_regions, tier="quick", family="collection", encodes=["hypnotoad.core.mesh:BoutMesh.geometry"],
+                      desc="x-direction arrays (total_poloidal_distance, ShiftAngle): centre and xlow of the global array take the first region of each y-group over its radial range (shared with C06)",
+                      bounds="4 regions in 3 y-groups, values symbolic"))
